@@ -328,7 +328,8 @@ theorem clean_commit (s : State) (t : TxnId) (tid st ul dl el : Nat) (stores : L
   obtain ⟨htx, hpos, hidx, _, _, _, _⟩ := hcore
   refine ⟨?_, ?_, ?_, ?_, ?_, ?_, ?_, ?_, ?_, ?_⟩
   · -- outputs
-    unfold cleanTxn
+    show allOk (outs s (Op.begin t tid st ul dl el ::
+      (stores.map (storeOp t) ++ [Op.vote t, Op.finish t])))
     intro o ho
     simp only [outs, List.mem_cons] at ho
     rcases ho with ho | ho
